@@ -12,7 +12,7 @@ config.set("eop", "missing_policy", "pass")
 
 from beyond.dates import Date  # noqa: E402
 from beyond.orbits import Orbit, StateVector  # noqa: E402
-from beyond.orbits.man import ImpulsiveMan, ContinuousMan, KeplerianImpulsiveMan, dkep2dv  # noqa: E402
+from beyond.orbits.man import ImpulsiveMan, ContinuousMan, KeplerianImpulsiveMan, dkep2dv, dkep2aol  # noqa: E402
 from beyond.frames.local import to_qsw, to_tnw, to_local  # noqa: E402
 from beyond.frames import frames as fr  # noqa: E402
 from beyond.propagators.keplernum import KeplerNum  # noqa: E402
@@ -271,6 +271,35 @@ def main(inp, outp):
                         break
                 clause("an inclination increment applied at the node is realised to first order (either out-of-plane sign)",
                        abs(abs(inew - i0) - abs(di)) <= 12.0 * di * di + 1e-10, "dkep/di", f"di={di}: realised {inew - i0}", {"di": di})
+    # ---- inclination AND node increments together: applied at the argument of latitude the library's own helper (dkep2aol) gives,
+    # the out-of-plane impulse turns the orbital plane about the radius vector by theta, which changes i by theta cos(u) and the node
+    # by theta sin(u) / sin(i) (spherical triangle node - satellite - new node): both requested increments, to first order
+    for case in job.get("dkep", [])[:1]:
+        a0, _e0, _i0 = case["kep"]
+        for i0 in (0.4, 0.9, 1.7, 2.6):
+            for (di, dO) in ((0.0, 2e-4), (3e-4, 0.0), (2e-4, 3e-4), (-2e-4, 5e-4), (1e-3, -2e-3), (-4e-5, -1e-4)):
+                probe = Orbit([a0, 0.0005, i0, 0.7, 0.0, 0.3], DATE, "keplerian", "EME2000", "Kepler")
+                u = float(dkep2aol(probe, di, dO))
+                orb = Orbit([a0, 0.0005, i0, 0.7, 0.0, u % (2 * np.pi)], DATE, "keplerian", "EME2000", "Kepler")
+                dvt = np.asarray(dkep2dv(orb, di=di, dOmega=dO), float)
+                cart = orb.copy(form="cartesian")
+                best = None
+                for sgn in (1.0, -1.0):
+                    new = cart.copy()
+                    w = dvt.copy()
+                    w[2] *= sgn
+                    new[3:] = np.asarray(cart[3:]) + to_tnw(cart).T @ w
+                    k2 = new.copy(form="keplerian")
+                    d_i = float(k2.i - i0)
+                    d_o = float((k2.raan - 0.7 + np.pi) % (2 * np.pi) - np.pi)
+                    err = max(abs(d_i - di), abs(d_o - dO) * np.sin(i0))
+                    if best is None or err < best[0]:
+                        best = (err, d_i, d_o)
+                theta = float(np.sqrt(di ** 2 + (dO * np.sin(i0)) ** 2))
+                res["evaluations"] += 1
+                clause("inclination and node increments requested together are both realised to first order at the argument of latitude the library gives",
+                       best[0] <= 20.0 * theta * theta + 2e-9, "dkep/di-dOmega",
+                       f"i={i0} di={di} dOmega={dO} applied at u={u:.6f}: realised di={best[1]:.3e} dOmega={best[2]:.3e}", {"i": i0, "di": di, "dOmega": dO, "u": u})
     res["nontrivial"] = sorted(set(res["nontrivial"]))[:400]
     with open(outp, "w") as fh:
         json.dump(res, fh)
